@@ -41,7 +41,8 @@ type sraVar struct {
 	// declaration: node to replace, form
 	declNode ast.Node // DeclStmt, ValueSpec (in a group) or AssignStmt
 	group    bool
-	init     ast.Expr // nil: zero value
+	init     ast.Expr        // nil: zero value
+	tuple    *ast.AssignStmt // declared by a tuple definition `x, err := E, F` (then declNode is that statement)
 	rejected bool
 	links    []*types.Var // variables it is copied from / to
 	sel      []textEdit   // field selector replacements (own and through pointer aliases)
@@ -93,6 +94,7 @@ func sraRound(sp *srcPkg, res *inlineResult) bool {
 			}
 			vars := map[*types.Var]*sraVar{}
 			var order []*sraVar
+			tupleStmts := map[*ast.AssignStmt]bool{}
 			unparenExpr := func(e ast.Expr) ast.Expr {
 				for {
 					p, ok := e.(*ast.ParenExpr)
@@ -164,6 +166,25 @@ func sraRound(sp *srcPkg, res *inlineResult) bool {
 						}
 					}
 				case *ast.AssignStmt:
+					if x.Tok == token.DEFINE && len(x.Lhs) > 1 && len(x.Lhs) == len(x.Rhs) {
+						switch parents[x].(type) {
+						case *ast.BlockStmt, *ast.CaseClause, *ast.CommClause:
+							for i, l := range x.Lhs {
+								id, ok := l.(*ast.Ident)
+								if !ok || id.Name == "_" {
+									continue
+								}
+								if obj, _ := info.Defs[id].(*types.Var); obj != nil {
+									n := len(order)
+									addVar(obj, x, false, x.Rhs[i])
+									if len(order) > n {
+										order[len(order)-1].tuple = x
+									}
+								}
+							}
+						}
+						return true
+					}
 					if x.Tok != token.DEFINE || len(x.Lhs) != 1 || len(x.Rhs) != 1 {
 						return true
 					}
@@ -317,6 +338,35 @@ func sraRound(sp *srcPkg, res *inlineResult) bool {
 					}
 					switch x := par.(type) {
 					case *ast.AssignStmt:
+						if len(x.Lhs) > 1 && len(x.Lhs) == len(x.Rhs) {
+							handled := false
+							for i := range x.Lhs {
+								// x_i = E_i  (plain tuple assignment; the defining tuple is handled at the declaration)
+								if ast.Node(x.Lhs[i]) == n && x.Tok == token.ASSIGN {
+									if valueOK(sv, x.Rhs[i]) {
+										tupleStmts[x] = true
+										handled = true
+									}
+								}
+								// y_i = x / y_i := x with y_i of the family
+								if ast.Node(x.Rhs[i]) == n {
+									if l, isId := x.Lhs[i].(*ast.Ident); isId {
+										var lo types.Object = info.Uses[l]
+										if x.Tok == token.DEFINE && info.Defs[l] != nil {
+											lo = info.Defs[l]
+										}
+										if lv, _ := lo.(*types.Var); lv != nil && vars[lv] != nil {
+											sv.links = append(sv.links, lv)
+											tupleStmts[x] = true
+											handled = true
+										}
+									}
+								}
+							}
+							if handled {
+								continue
+							}
+						}
 						if len(x.Lhs) == 1 && len(x.Rhs) == 1 {
 							// x = E
 							if x.Tok == token.ASSIGN && ast.Node(x.Lhs[0]) == n {
@@ -509,7 +559,11 @@ func sraRound(sp *srcPkg, res *inlineResult) bool {
 					}
 				}
 				decl = append(decl, blanks+" = "+strings.Join(names, ", "))
-				local = append(local, textEdit{sp.off(sv.declNode.Pos()), sp.off(sv.declNode.End()), resync(sv.declNode, strings.Join(decl, "; "))})
+				if sv.tuple != nil {
+					tupleStmts[sv.tuple] = true
+				} else {
+					local = append(local, textEdit{sp.off(sv.declNode.Pos()), sp.off(sv.declNode.End()), resync(sv.declNode, strings.Join(decl, "; "))})
+				}
 				for _, st := range sv.stmts {
 					if st.rhs == nil {
 						local = append(local, textEdit{sp.off(st.node.Pos()), sp.off(st.node.End()), blanks + " = " + strings.Join(names, ", ")})
@@ -527,6 +581,66 @@ func sraRound(sp *srcPkg, res *inlineResult) bool {
 			}
 			if nApplied == 0 {
 				continue
+			}
+			// tuple assignments and definitions with family variables on the left: position by position
+			var tstmts []*ast.AssignStmt
+			for st := range tupleStmts {
+				tstmts = append(tstmts, st)
+			}
+			sort.Slice(tstmts, func(i, j int) bool { return tstmts[i].Pos() < tstmts[j].Pos() })
+			for _, st := range tstmts {
+				var pre, lhs, rhs []string
+				otherNew := false
+				touched := false
+				for i := range st.Lhs {
+					var sv *sraVar
+					if id, isId := st.Lhs[i].(*ast.Ident); isId {
+						var o types.Object = info.Uses[id]
+						if st.Tok == token.DEFINE && info.Defs[id] != nil {
+							o = info.Defs[id]
+							if v, _ := o.(*types.Var); v == nil || vars[v] == nil || vars[v].rejected {
+								if id.Name != "_" {
+									otherNew = true
+								}
+							}
+						}
+						if v, _ := o.(*types.Var); v != nil && vars[v] != nil && !vars[v].rejected {
+							sv = vars[v]
+						}
+					}
+					if sv == nil {
+						lhs = append(lhs, render(st.Lhs[i].Pos(), st.Lhs[i].End()))
+						rhs = append(rhs, render(st.Rhs[i].Pos(), st.Rhs[i].End()))
+						continue
+					}
+					touched = true
+					var names []string
+					for k := 0; k < sv.st.NumFields(); k++ {
+						names = append(names, sv.prefix+sv.st.Field(k).Name())
+					}
+					if sv.tuple == st {
+						for k, nm := range names {
+							pre = append(pre, "var "+nm+" "+sv.ftypes[k])
+						}
+						pre = append(pre, strings.TrimSuffix(strings.Repeat("_, ", len(names)), ", ")+" = "+strings.Join(names, ", "))
+					}
+					for _, pt := range valueParts(sv, st.Rhs[i]) {
+						lhs = append(lhs, names[pt.field])
+						rhs = append(rhs, pt.text)
+					}
+				}
+				if !touched {
+					continue
+				}
+				op := " = "
+				if st.Tok == token.DEFINE && otherNew {
+					op = " := "
+				}
+				txt := strings.Join(lhs, ", ") + op + strings.Join(rhs, ", ")
+				if len(pre) > 0 {
+					txt = strings.Join(pre, "; ") + "; " + txt
+				}
+				local = append(local, textEdit{sp.off(st.Pos()), sp.off(st.End()), resync(st, txt)})
 			}
 			for i, e := range sel {
 				if !used[i] {
